@@ -236,7 +236,7 @@ def step_abort(eng: int, c0: int, c1: int, c2: int, c3: int, c4: int, c5: int, h
     src = active[pick(srcsel, len(active))]
     real = [n for n in sk.nodes if n.type != "history"]
     victim = real[pick(bad, len(real))]
-    attr = "entry" if pick(where, 2) == 0 else "exit"
+    attr = "entry" if (P["where"] if "where" in P else pick(where, 2)) == 0 else "exit"
     saved = list(getattr(victim, attr))
     before = sorted(n.id for n in active)
     # the victim's entry (or exit) list gets an action nobody implements, placed AFTER its marker: the abort strikes in the
@@ -459,10 +459,10 @@ def items(tier: str, seed: int) -> List[Dict[str, Any]]:
                     "label": f"step_node[{sid}]"})
     for sid, spec in (cur if not quick else [(k, v) for k, v in cur if k in ("CUR2", "CUR4", "CUR10")]):
         n = _count_nodes(spec)
-        step = 1 if not quick else 2
-        for t in range(0, n, step):
-            out.append({"ob": "step_abort", "params": {"sid": sid, "spec": spec, "tgts": [t, min(n, t + step)]},
-                        "timeout": 300 if quick else 900, "label": f"step_abort[{sid},tgt={t}..{min(n, t + step) - 1}]"})
+        for t in range(n):
+            for wh in (0, 1):
+                out.append({"ob": "step_abort", "params": {"sid": sid, "spec": spec, "tgts": [t, t + 1], "where": wh},
+                            "timeout": 300 if quick else 900, "label": f"step_abort[{sid},tgt={t},{'entry' if wh == 0 else 'exit'}]"})
     str_skels = ["CUR2", "CUR4", "CUR8", "CUR9"] if quick else list(skeletons.CURATED)
     for sid in str_skels:
         spec = skeletons.CURATED[sid]
